@@ -852,9 +852,14 @@ class ModelMixin2:
             d: DictE = st.get(c.sym)
             attrib_of = (st.mon.get('attrib_of') or {}).get(c.sym)
             if attrib_of is not None:
+                key = i.v if isinstance(i, Const) else '?'
+                ovr = dict((st.mon.get('sym:attrovr') or {}).get(attrib_of, ()))
+                if key in ovr:
+                    if ovr[key] is None:
+                        return [(self.exc('KeyError', st, node, f'attrib[{key!r}]'), st)]
+                    return [(ovr[key], st)]
                 s2 = st.copy()
                 self.stats['forks'] += 1
-                key = i.v if isinstance(i, Const) else '?'
                 return [(StrV(('attr', S(attrib_of), key)), st),
                         (self.exc('KeyError', s2, node, f'attrib[{key!r}]'), s2)]
             if d.exact and self._is_concrete(i) and all(self._is_concrete(k) for k, _ in d.items):
